@@ -38,7 +38,7 @@ H3 = gen.schema(
     items=[gen.key('Ka', handler='ha'), gen.key('kb', handler='Hb'), gen.multisection('ta', '*', attr='xs', handler='hm')])
 # an intermediate section type WITHOUT any handler attribute whose sections contain handler-bearing items
 H4 = gen.schema(
-    handler='hs',
+    handler='hs', datatype=gen.WRAP,
     types=[gen.stype('tc', [gen.key('kd', handler='hk'), gen.key('ke')]),
            gen.stype('tm', [gen.multisection('tc', '*', attr='cs'), gen.key('km')]),
            gen.stype('to', [gen.section('tm', '*', attr='sm'), gen.multisection('tc', '+', attr='cs', handler='hc')])],
